@@ -3265,6 +3265,7 @@ func c14r22(c *Ctx, r *Report) {
 }
 
 func round10(c *Ctx, r *Report, prop string) {
+	defer round11(c, r, prop)
 	switch prop {
 	case "C01":
 		c01r15(c, r)
